@@ -591,12 +591,6 @@ example (X : Ext) : fromKoto X (.int .u8) (.num (.i 300)) = none ∧
     fromKoto X (.int .i8) (.num (.i (-128))) = some (.int (-128)) := by
   refine ⟨rfl, rfl, rfl, rfl, rfl⟩
 
-/-- `from_koto_value::<f32>` has no range check at all: every number is accepted, a finite one beyond
-the `f32` range comes out as whatever `as f32` makes of it (an infinity) — the negation of
-"out-of-range input yields an error" for the `f32` target (finding F-C20-8). -/
-theorem fromKoto_f32_never_errors (X : Ext) (n : Num) : (fromKoto X .f32 (.num n)).isSome = true := by
-  cases n <;> rfl
-
 /-- Model decisions mirrored from deserializer.rs that are *not* range errors (precision, spelling):
 a float into an integer type is truncated first (`255.9 → 255u8` is accepted because the truncated
 value is in range, `256.0` is not); an `i64` into `f64` is rounded; and a bare string selects a
@@ -645,7 +639,7 @@ theorem toKotoF_isSome (X : Ext) : ∀ es : List (Name × RVal), (toKotoF X es).
 end
 
 mutual
-theorem rust_roundtrip_core (X : Ext) (hf : ∀ b, X.narrow (X.widen b) = b) :
+theorem rust_roundtrip_core (X : Ext) (hf : F32Exact X) :
     ∀ (t : Ty) (x : RVal) (v : Val), wfTy t = true → hasTy t x = true → toKoto X x = some v →
       fromKoto X t v = some x
   | .unit, x, v, _, ht, hk => by
@@ -659,7 +653,14 @@ theorem rust_roundtrip_core (X : Ext) (hf : ∀ b, X.narrow (X.widen b) = b) :
     exact rt_int X k _ v ht.1 ht.2 hk
   | .f32, x, v, _, ht, hk => by
     cases x <;> simp [hasTy] at ht
-    simp [toKoto] at hk; subst hk; simp [fromKoto, hf]
+    simp only [toKoto, Option.some.injEq] at hk; subst hk
+    rename_i b
+    have h1 := (hf b).1
+    have h2 := (hf b).2
+    simp only [fromKoto, h1]
+    by_cases hfin : finiteBits (X.widen b) = true
+    · simp [hfin, h2 hfin]
+    · simp [hfin]
   | .f64, x, v, _, ht, hk => by
     cases x <;> simp [hasTy] at ht
     simp [toKoto] at hk; subst hk; simp [fromKoto]
@@ -734,7 +735,7 @@ theorem rust_roundtrip_core (X : Ext) (hf : ∀ b, X.narrow (X.widen b) = b) :
       simp only [toKoto, Option.map_eq_some_iff] at hk
       obtain ⟨w, h1, rfl⟩ := hk
       simp [fromKoto, rust_roundtrip_variant X hf vs n .struct p w hw.2 ht (by simp) h1]
-theorem rust_roundtrip_pos (X : Ext) (hf : ∀ b, X.narrow (X.widen b) = b) :
+theorem rust_roundtrip_pos (X : Ext) (hf : F32Exact X) :
     ∀ (ts : List Ty) (xs : List RVal) (vs : List Val), wfTyL ts = true → hasTyPos ts xs = true →
       toKotoL X xs = some vs → fromPos X ts vs = some xs
   | [], xs, vs, _, ht, hk => by
@@ -750,7 +751,7 @@ theorem rust_roundtrip_pos (X : Ext) (hf : ∀ b, X.narrow (X.widen b) = b) :
       cases h1 : toKoto X x <;> cases h2 : toKotoL X xs <;> simp [h1, h2] at hk
       subst hk
       simp [fromPos, rust_roundtrip_core X hf t x _ hw.1 ht.1 h1, rust_roundtrip_pos X hf ts xs _ hw.2 ht.2 h2]
-theorem rust_roundtrip_fields (X : Ext) (hf : ∀ b, X.narrow (X.widen b) = b) :
+theorem rust_roundtrip_fields (X : Ext) (hf : F32Exact X) :
     ∀ (fs : List (Name × Ty)) (xs : List (Name × RVal)) (kvs : List (Val × Val)), wfTyF fs = true →
       hasTyFields fs xs = true →
       (∀ e ∈ xs, ∃ v, toKoto X e.2 = some v ∧ lookupStr e.1 kvs = some v) →
@@ -771,7 +772,7 @@ theorem rust_roundtrip_fields (X : Ext) (hf : ∀ b, X.narrow (X.widen b) = b) :
       have ih2 := rust_roundtrip_fields X hf fs xs kvs hw.2 htr (fun e he => hl e (by simp [he]))
       simp only at hv2
       simp [fromFields, hv2, ih1, ih2]
-theorem rust_roundtrip_variant (X : Ext) (hf : ∀ b, X.narrow (X.widen b) = b) :
+theorem rust_roundtrip_variant (X : Ext) (hf : F32Exact X) :
     ∀ (vs : List (Name × VKind × Ty)) (n : Name) (k : VKind) (p : RVal) (w : Val), wfTyV vs = true →
       hasTyVariant vs n k p = true → k ≠ .unit → toKoto X p = some w →
       fromVariant X vs n w = some (.variant n k p)
@@ -806,8 +807,9 @@ and primitives — and every value `x` of that type whose integers fit `i64`, `f
 to `to_koto_value x` returns exactly `x`.
 Excluded (`wfTy`): an `Option` directly around a type whose values can serialize to null (`Option<_>`,
 `()`), for which the statement is false — see `rust_roundtrip_nested_option_witness`.
-Assumed (`hf`): `(x as f64) as f32 = x` for every `f32` (IEEE-754 widening is exact). -/
-theorem rust_roundtrip_partial (X : Ext) (hf : ∀ b, X.narrow (X.widen b) = b) (t : Ty) (x : RVal)
+Assumed (`hf : F32Exact X`): `(x as f64) as f32 = x` for every `f32` (IEEE-754 widening is exact) and a
+non-finite `f32` widens to a non-finite `f64`. -/
+theorem rust_roundtrip_partial (X : Ext) (hf : F32Exact X) (t : Ty) (x : RVal)
     (hw : wfTy t = true) (ht : hasTy t x = true) (hfit : intsFit x = true) :
     (toKoto X x).bind (fromKoto X t) = some x := by
   have hs := toKoto_isSome X x
@@ -826,9 +828,11 @@ example :
       (toKoto X0 x).bind (fromKoto X0 t) = some x := by
   refine ⟨by decide, by decide, by decide, by rfl⟩
 
-example : ∀ b, X0.narrow (X0.widen b) = b := by
-  intro b
-  simp [X0]
+/-- out-of-range is an error for the `f32` target as well (fix-7): a finite number whose narrowing is
+not finite is rejected, everything else is narrowed -/
+theorem out_of_range_is_error_f32 (X : Ext) (b : UInt64) (h1 : finiteBits b = true)
+    (h2 : finiteBits32 (X.narrow b) = false) : fromKoto X .f32 (.num (.f b)) = none := by
+  simp [fromKoto, h1, h2]
 
 /-! ### Recursive Rust types
 
